@@ -36,7 +36,7 @@ META = {
     "id": "C16",
     "level": "proof",
     "technique": "Coq theorems over an exact-rational model of draw/reset_momentum/kinetic_energy/modify_velocities (algebra by ring/field, unit constants by vm_compute on constants regenerated from the sources) + lock-step of the extracted model vs the real engine classes with a recording random generator; call sites: a model of the settings dictionary every move of tis.py hands to modify_velocities, in lock-step with the real shoot / wire_fencing / select_shoot / run_md and the real program on a spy engine, and the total momentum of the frames a real in-process engine (TurtleMD) writes inside the moves; several calls in one worker directory: a model with files as trajectories and the engine's scratch files conf.* / genvel.* as state (rule: extraction overwrites), in lock-step with consecutive real modify_velocities calls of all five engine classes in one exe_dir without clean-up",
-    "text": "Unbounded theorems over Q: m*v^2 = kT*z^2 for every drawn component (so zero mean and <m v^2> = kT are inherited from the unit normal stream) for every engine's beta = 1/(kb*T), LAMMPS after its velocity scale and ASE's momentum draw included; lifted to the whole operation (C16_modify_variance*: every component of every atom of the velocities written by modify_velocities, momentum reset off) and to the reported kinetic energy (C16_modify_equipartition*: kin_new = (1/2) kT sum z^2 in the engine's unit); per-engine SI statements (C16_temperature_si_*: kg * (m/s)^2 of a written component = k_B(SI) T z^2 within 1e-6, CP2K 2e-6) over the constants regenerated from the sources; zero total momentum and a uniform shift after reset_momentum / Stationary; dek = kin_new - kin_old with kin_new the kinetic energy of the written velocities; positions, box, identities and every file except conf.*/genvel.* untouched; the result is a function of the first npart*dim stream values; source FILES whose optional entries are absent (no VELOCITY block in a .g96 frame, no velocity columns / no 'Box:' entry in an xyz snapshot: VelM.cfile has them as options, the readers' defaults are modelled) -- C16_file_written_is_modify_std: with the special case of GromacsEngine.modify_velocities in place the written genvel file is exactly modify_std of the frame as read, for every engine and every such file, so all theorems above carry over; C16_file_kin_new_is_written: one velocity line per atom, kin_new is the kinetic energy of the written lines; C16_file_no_velocities_kin_old: kin_old = 0 and dek infinite for a source without velocities (GROMACS: the stored system.ekin); C16_gromacs_no_velocity_block_special_case_needed: with a test that never fires the velocity block is empty while kin_new is non-zero (refutation witness). Closed numeric lemmas tie each engine's constants (kb, LAMMPS scale, CP2K mass factor, as exact rationals of the float literals in the sources) to the SI values. The model is tied to /repo by running the real prepare_shooting_point/modify_velocities of all five engine classes on generated inputs with prescribed draws and comparing files and return values with the extracted model, and by evaluating the statement itself (including an SI-unit temperature check independent of the engines' constants) on the implementation's output. Source frames of every set-up include, next to moving frames and a frame at rest, frames whose file has no velocities (GROMACS .g96 without VELOCITY block, TurtleMD/CP2K xyz without velocity columns, ASE Atoms without momenta) and, for the xyz engines, no 'Box:' entry (with and without velocities); the oracle reads the written genvel file back with its own parser: number of velocity entries = number of atoms, kinetic energy of the written velocities = reported kin_new, dek = kin_new - kin_old with kin_old the kinetic energy of the source frame as read (infinite when that is zero, i.e. also for a frame without velocities; GROMACS: the stored ekin), box = the file's, or the CP2K template's / none (TurtleMD) where the file has none. CALL SITES (wherever the package regenerates velocities): C16_call_site_settings -- for every move (shoot; wire_fencing with any number of jumps, usable or not) every dictionary handed to modify_velocities agrees with the ensemble's tis_set on every key except allowmaxlength (nothing is dropped: wire_fencing passes the ensemble's own dictionary with allowmaxlength switched on); C16_call_site_count (one regeneration per shooting move, one per jump); C16_call_site_momentum_zero -- zero_momentum = true in the ensemble's settings gives zero total momentum of the velocities written by EVERY regeneration of EVERY move, the ones inside a wire-fencing move included; C16_call_site_rebuilt_settings_refuted -- a wire-fencing move that builds a fresh {allowmaxlength, maxlength} dictionary for its sub-moves loses the request (TurtleMD then keeps the centre-of-mass motion). Tied to /repo by three families: (a) the real shoot / wire_fencing, called directly, through select_shoot and through run_md, on a spy engine (the lattice plug-in recording the vel_settings it is handed and the chain of tis.py functions on the stack), for configurations with every key that any engine's modify_velocities reads (discovered from the engine sources' ASTs on every run: zero_momentum, and the AMS engine's aimless / momentum / rescale / rescale_energy) at non-default values, each key also flipped alone, and nothing configured; n_jumps 1-3, with and without interface_cap, paths with one / two / no wire-fencing segment; oracle: every such key arrives at every call site with the configured value (a dropped or altered key is reported with the call site, the key, the value received and the value configured); the recorded dictionaries, in order and entry by entry, equal the model's (VelM.handed); (b) the real program (setup_config -> scheduler -> run_md, sh and wf ensembles, 1-2 workers) with the spy as plug-in engine and the settings in [simulation.tis_set] of the input file: same oracle on every regeneration of the run; (c) the real shoot / wire_fencing with a real TurtleMD engine (2 and 3 atoms, Langevin dynamics): every genvel.xyz written inside a move is read back with the independent parser and has zero total momentum when zero_momentum = true is configured (and the same settings oracle). Every place of the package that calls or passes on modify_velocities / prepare_shooting_point / shoot / wire_fencing / select_shoot / run_md is listed from the ASTs and must be one of the driven ones. An exception of the real code on a generated (legal) input -- engine constructor, prepare_shooting_point / modify_velocities, a move, the program -- is reported as a violation with that input. SEQUENCES OF CALLS (velocities are regenerated once per jump of a wire-fencing move between two clean-ups of the worker directory, so conf.* / genvel.* of the earlier calls are still there): VelM.modify_seq -- files are trajectories, a shooting point is (file, index), dump_frame extracts the snapshot into conf.<ext> of the exe_dir, the reader takes the first snapshot of that file, genvel.<ext> is rewritten; C16_extract_overwrites (the rule: after the extraction conf.<ext> holds exactly that snapshot); C16_sequence_independent (unbounded, any number of calls, any operations): with the rule every call of a sequence returns exactly what it returns alone -- its own operation with ITS draws on ITS shooting point as found in the source files -- and the source files are as before; C16_sequence_history_irrelevant (two different histories give the same result for the same last call); C16_sequence_positions (call by call: positions, box, identities are those of that call's shooting point, kin_old is the kinetic energy of that frame's velocities, the result is modify_std of that frame, so every theorem above applies to each call); C16_sequence_append_refuted (an extraction that appends, i.e. write_xyz_trajectory without append=False: the second call carries the positions of the first call's shooting point and its kin_old / dek). Tied to /repo by the sequence family: for every set-up of every engine class (TurtleMD, CP2K, LAMMPS, GROMACS with infretis_genvel, ASE -- none needs its external program for this operation) and zero_momentum absent / False / True, 5-8 consecutive calls of the real prepare_shooting_point -> modify_velocities in ONE fresh exe_dir without any clean-up in between, on different shooting points in a shuffled order (every special frame of the multi-frame trajectory file -- moving, at rest, without velocities, without box entry --, two frames of a second file, and the first shooting point once more at the end; at least one step inside a file and one between files), each call with its own prescribed draws; oracle per call, evaluated for THAT call's shooting point: positions, box and identities of genvel.* read back with the independent parser, kin_old = kinetic energy of that frame's velocities, kin_new = that of the written velocities, dek = kin_new - kin_old (infinite for kin_old = 0 / missing), zero momentum when requested, SI temperature (zero_momentum off), every source file byte-for-byte unchanged, path frames untouched; a regenerated frame that carries the positions of an EARLIER call's shooting point is named as such; the whole sequence is compared with the extracted VelM.seq_results (rule on), values consumed per call included.",
+    "text": "Unbounded theorems over Q: m*v^2 = kT*z^2 for every drawn component (so zero mean and <m v^2> = kT are inherited from the unit normal stream) for every engine's beta = 1/(kb*T), LAMMPS after its velocity scale and ASE's momentum draw included; lifted to the whole operation (C16_modify_variance*: every component of every atom of the velocities written by modify_velocities, momentum reset off) and to the reported kinetic energy (C16_modify_equipartition*: kin_new = (1/2) kT sum z^2 in the engine's unit); per-engine SI statements (C16_temperature_si_*: kg * (m/s)^2 of a written component = k_B(SI) T z^2 within 1e-6, CP2K 2e-6) over the constants regenerated from the sources; zero total momentum and a uniform shift after reset_momentum / Stationary; dek = kin_new - kin_old with kin_new the kinetic energy of the written velocities; positions, box, identities and every file except conf.*/genvel.* untouched; the result is a function of the first npart*dim stream values; source FILES whose optional entries are absent (no VELOCITY block in a .g96 frame, no velocity columns / no 'Box:' entry in an xyz snapshot: VelM.cfile has them as options, the readers' defaults are modelled) -- C16_file_written_is_modify_std: with the special case of GromacsEngine.modify_velocities in place the written genvel file is exactly modify_std of the frame as read, for every engine and every such file, so all theorems above carry over; C16_file_kin_new_is_written: one velocity line per atom, kin_new is the kinetic energy of the written lines; C16_file_no_velocities_kin_old: kin_old = 0 and dek infinite for a source without velocities (GROMACS: the stored system.ekin); C16_gromacs_no_velocity_block_special_case_needed: with a test that never fires the velocity block is empty while kin_new is non-zero (refutation witness). Closed numeric lemmas tie each engine's constants (kb, LAMMPS scale, CP2K mass factor, as exact rationals of the float literals in the sources) to the SI values. The model is tied to /repo by running the real prepare_shooting_point/modify_velocities of all five engine classes on generated inputs with prescribed draws and comparing files and return values with the extracted model, and by evaluating the statement itself (including an SI-unit temperature check independent of the engines' constants) on the implementation's output. Source frames of every set-up include, next to moving frames and a frame at rest, frames whose file has no velocities (GROMACS .g96 without VELOCITY block, TurtleMD/CP2K xyz without velocity columns, ASE Atoms without momenta) and, for the xyz engines, no 'Box:' entry (with and without velocities); the oracle reads the written genvel file back with its own parser: number of velocity entries = number of atoms, kinetic energy of the written velocities = reported kin_new, dek = kin_new - kin_old with kin_old the kinetic energy of the source frame as read (infinite when that is zero, i.e. also for a frame without velocities; GROMACS: the stored ekin), box = the file's, or the CP2K template's / none (TurtleMD) where the file has none. CALL SITES (wherever the package regenerates velocities): C16_call_site_settings -- for every move (shoot; wire_fencing with any number of jumps, usable or not) every dictionary handed to modify_velocities agrees with the ensemble's tis_set on every key except allowmaxlength (nothing is dropped: wire_fencing passes the ensemble's own dictionary with allowmaxlength switched on); C16_call_site_count (one regeneration per shooting move, one per jump); C16_call_site_momentum_zero -- zero_momentum = true in the ensemble's settings gives zero total momentum of the velocities written by EVERY regeneration of EVERY move, the ones inside a wire-fencing move included; C16_call_site_rebuilt_settings_refuted -- a wire-fencing move that builds a fresh {allowmaxlength, maxlength} dictionary for its sub-moves loses the request (TurtleMD then keeps the centre-of-mass motion). Tied to /repo by three families: (a) the real shoot / wire_fencing, called directly, through select_shoot and through run_md, on a spy engine (the lattice plug-in recording the vel_settings it is handed and the chain of tis.py functions on the stack), for configurations with every key that any engine's modify_velocities reads (discovered from the engine sources' ASTs on every run: zero_momentum, and the AMS engine's aimless / momentum / rescale / rescale_energy) at non-default values, each key also flipped alone, and nothing configured; n_jumps 1-3, with and without interface_cap, paths with one / two / no wire-fencing segment; oracle: every such key arrives at every call site with the configured value (a dropped or altered key is reported with the call site, the key, the value received and the value configured); the recorded dictionaries, in order and entry by entry, equal the model's (VelM.handed); (b) the real program (setup_config -> scheduler -> run_md, sh and wf ensembles, 1-2 workers) with the spy as plug-in engine and the settings in [simulation.tis_set] of the input file: same oracle on every regeneration of the run; (c) the real shoot / wire_fencing with a real TurtleMD engine (2 and 3 atoms, Langevin dynamics): every genvel.xyz written inside a move is read back with the independent parser and has zero total momentum when zero_momentum = true is configured (and the same settings oracle). Every place of the package that calls or passes on modify_velocities / prepare_shooting_point / shoot / wire_fencing / select_shoot / run_md is listed from the ASTs and must be one of the driven ones. An exception of the real code on a generated (legal) input -- engine constructor, prepare_shooting_point / modify_velocities, a move, the program -- is reported as a violation with that input. SEQUENCES OF CALLS (velocities are regenerated once per jump of a wire-fencing move between two clean-ups of the worker directory, so conf.* / genvel.* of the earlier calls are still there): VelM.modify_seq -- files are trajectories, a shooting point is (file, index), dump_frame extracts the snapshot into conf.<ext> of the exe_dir, the reader takes the first snapshot of that file, genvel.<ext> is rewritten; C16_extract_overwrites (the rule: after the extraction conf.<ext> holds exactly that snapshot); C16_sequence_independent (unbounded, any number of calls, any operations): with the rule every call of a sequence returns exactly what it returns alone -- its own operation with ITS draws on ITS shooting point as found in the source files -- and the source files are as before; C16_sequence_history_irrelevant (two different histories give the same result for the same last call); C16_sequence_positions (call by call: positions, box, identities are those of that call's shooting point, kin_old is the kinetic energy of that frame's velocities, the result is modify_std of that frame, so every theorem above applies to each call); C16_sequence_append_refuted (an extraction that appends, i.e. write_xyz_trajectory without append=False: the second call carries the positions of the first call's shooting point and its kin_old / dek). Tied to /repo by the sequence family: for every set-up of every engine class (TurtleMD, CP2K, LAMMPS, GROMACS with infretis_genvel, ASE -- none needs its external program for this operation) and zero_momentum absent / False / True, 5-8 consecutive calls of the real prepare_shooting_point -> modify_velocities in ONE fresh exe_dir without any clean-up in between, on different shooting points in a shuffled order (every special frame of the multi-frame trajectory file -- moving, at rest, without velocities, without box entry --, two frames of a second file, and the first shooting point once more at the end; at least one step inside a file and one between files), each call with its own prescribed draws; oracle per call, evaluated for THAT call's shooting point: positions, box and identities of genvel.* read back with the independent parser, kin_old = kinetic energy of that frame's velocities, kin_new = that of the written velocities, dek = kin_new - kin_old (infinite for kin_old = 0 / missing), zero momentum when requested, SI temperature (zero_momentum off), every source file byte-for-byte unchanged, path frames untouched; a regenerated frame that carries the positions of an EARLIER call's shooting point is named as such; the whole sequence is compared with the extracted VelM.seq_results (rule on), values consumed per call included. The per-atom masses of the built engine are compared with the masses its input declares (LAMMPS data files with an unused atom type below a used one, TurtleMD, GROMACS).",
     "note": "All theorems print 'Closed under the global context' (Q only, no real-number axioms, no Interval). Trusted: Coq kernel; extraction (ExtrOcamlBasic) + ocaml/util.ml + ocaml/c16_driver.ml; py/checks/c16.py (input writers, file parsers, recorder, tolerances); py/params_c16.py; the SI constants written in VelM.v / c16.py (2019 SI, CODATA 2018). Not modelled: floating-point rounding (model is exact; comparisons within 1e-9 relative plus the 9-decimal file format quantum), the square root (sigma is captured from the implementation and sigma^2*m*beta = 1 is checked exactly on it to 1e-12), the Gaussian law of numpy's normal(), ASE internals (thermalize_momenta/Stationary are modelled from their source and tied by the lock-step), velocities generated by the external GROMACS program. Frames without velocities: lammpstrj has no optional entries and a .g96 frame keeps its BOX block, so LAMMPS has no such input and GROMACS only the missing VELOCITY block; TurtleMD and CP2K extract the shooting frame with _extract_frame first, which writes zero velocity columns, so for them the velocity-less file is seen by the reader of the extraction, not by modify_velocities itself; these and the GROMACS cases are compared with the file-level model VelM.modify_file (special case on). The variance theorem concerns the draw; with zero_momentum the per-atom variance is reduced by the centre-of-mass part (C16_reset_kinetic quantifies it). CP2K's kb literal is 1.2e-6 away from the 2019 SI value, so its unit lemmas are shown to 2e-6 instead of 1e-6 (no lower bound is asserted: correcting the literal breaks nothing). Lead L5 (ASE draws from numpy's global generator, not engine.rgen) is recorded under C07; this check handles both sources and lists the one in use under coverage.draw_source_per_engine. Call sites: keys and values of the settings dictionaries are interned as integers for the model (True = 1, False = 0, key order kept: the model's dictionary update keeps the position of an existing key and appends a new one, as Python does); the spy engine is the lattice walk of py/plugins/engines.py with a recording modify_velocities (py/plugins/c16_plugins.py), the call site is read off the Python stack; which keys the engines read is taken from `vel_settings.get(\"k\", d)` / `vel_settings[\"k\"]` in every modify_velocities of infretis/classes/engines (any other use of the parameter makes the oracle demand every configured key); the AMS engine itself is not run (needs an AMS worker), its keys are covered through the spy; the TurtleMD family uses an order parameter that does not depend on velocities (Path.reverse of a wire-fencing move with a velocity-dependent one is the C20 finding L12); the external-program engines are not run inside moves (no executables), their modify_velocities is tied by the per-engine lock-step above and the settings they are handed by the spy families; tools/generate_H2_loadpaths.py calls shoot with a given shooting point only (no regeneration). Sequences of calls: the model HAS the engine's scratch state (VelM.tworld: conf / genvel / source files as lists of snapshots), so the family is model + oracle; the model's reader takes the first snapshot of conf.<ext> (read_xyz_file / read_lammpstrj(.., 0, ..) / read_gromos96_file; ase.io.read takes the last one -- with the rule in place the file holds exactly one, C16_extract_overwrites); only calls whose shooting point lies in a source file are covered by the theorem (from_source), a shooting point that IS the previous call's genvel file is not in the family (inside a move the next shooting point comes from a path file written by propagate under its own name); GROMACS source frames are one-frame .g96 files, so for GROMACS every step of a sequence is a step to another file (multi-frame .trr sources need the binary writer and are left out), and GROMACS with velocities generated by the external gmx program (infretis_genvel = false) is not driven (needs gmx grompp/mdrun); the standard deviations handed to the model are those captured in the first call of a sequence (every call's own are checked against sigma^2*m*beta = 1); the sequence family draws its inputs from its own seeded generator so that the inputs of the older families are unchanged.",
     "design_ref": "4/C16",
 }
